@@ -92,7 +92,7 @@ def pair(rng, w, n):
     W = w * n
     M = 1 << W
     ta, a = value(rng, w, n)
-    c = rng.randrange(10)
+    c = rng.randrange(14)
     if c == 0:
         return ta + "/same", a, a
     if c == 1:
@@ -108,6 +108,14 @@ def pair(rng, w, n):
         return ta + "/compl", a, pat(M - a + rng.randrange(-2, 3), W)
     if c == 6:
         return ta + "/halfcompl", a, pat((M >> 1) - a + rng.randrange(-2, 3), W)
+    if c == 8:
+        k = rng.randrange(W)
+        return ta + "/shifted", a, pat(a << k, W) if rng.random() < 0.5 else a >> k
+    if c == 9:
+        k = rng.randrange(W + 1)
+        return ta + "/sum-pow2", a, pat((1 << k) - a, W)          # a + b = 2^k exactly
+    if c == 10:
+        return ta + "/multiple", a, pat(a * rng.choice([2, 3, 5, 7, 10, (1 << w) - 1, (1 << w) + 1]), W)
     if c == 7:
         # exactly one digit differs (by one bit or completely)
         i = rng.randrange(n)
